@@ -87,7 +87,13 @@ class Controller:
                 continue
             idle_rounds = 0
             if quiescent:
-                self.log.append(('QUIESCE',))
+                snap = None
+                try:
+                    snap = {sid: (tuple(sim.progress.time.tiers), sorted(tuple(t.tiers) for t in sim.next_steps))
+                            for sid, sim in CTX.world.sims.items()}
+                except Exception:
+                    snap = None
+                self.log.append(('QUIESCE', snap))
             for k0 in [k0 for k0, f0 in self.waiting.items() if f0.done()]:
                 del self.waiting[k0]          # cancelled together with its sim_process task
             if not self.waiting: continue
